@@ -990,6 +990,12 @@ class _EvalBuilder(_Builder):
                         return i._rewrite(t2)
                     return t
                 return rw_(from_ast(val_ast, res_))
+            if s[1][0] == "call" and dotted(s[1][1]) in ("partial", "functools.partial") and s[1][2] and not s[1][3]:
+                # partial(F, a..)(b..) is F(a.., b..)
+                s = ("call", s[1][2][0], tuple(s[1][2][1:]) + tuple(s[2]), s[3])
+                s = self._fold_call(s) if hasattr(self, "_fold_call") else s
+                if s[0] != "call":
+                    return s
             if not self.pure and i.auto_inline and s[1][0] == "call" and s[1][1][0] == "n" and not s[1][3]:
                 # F(..)(args): a factory / selector of the module; what it returns (a closure, a function reference) is applied
                 inner = self._maybe_inline(s[1], n)
